@@ -159,48 +159,82 @@ Proof.
 Qed.
 
 (* halfedges: six stored halfedges on six distinct edges *)
-Theorem label_he_inverts (t : ttopo) h0 h1 h2 h3 h4 h5 :
-  tt_heh t = [Some h0; Some h1; Some h2; Some h3; Some h4; Some h5] ->
-  NoDup [h0 / 2; h1 / 2; h2 / 2; h3 / 2; h4 / 2; h5 / 2] ->
+Lemma label_he_at (hs : list nat) (i x h : nat) (side : bool) :
+  NoDup (map (fun h => h / 2) hs) -> i < length hs -> nth i hs 0 = x -> h = (if side then x else opp x) ->
+  match find_index (fun o => ofull o =? h / 2) (map Some hs) with
+  | Some i0 => Some (if oeqb (nth i0 (map Some hs) None) h then Z.of_nat i0 else HEL_opposite (Z.of_nat i0))
+  | None => None end = Some (if side then Z.of_nat i else HEL_opposite (Z.of_nat i)).
+Proof.
+  intros ND Hi Hx Hs.
+  assert (Hh2 : h / 2 = x / 2) by (subst h; destruct side; [reflexivity | apply opp_div2]).
+  assert (N : forall j, j < length hs -> nth j (map Some hs) None = Some (nth j hs 0)).
+  { intros j Hj. rewrite (nth_indep _ None (Some 0)) by (rewrite map_length; exact Hj). apply (map_nth Some hs 0 j). }
+  rewrite (find_index_unique _ _ i None).
+  - rewrite (N i Hi), Hx. cbn [oeqb]. destruct side; subst h; [rewrite Nat.eqb_refl; reflexivity|].
+    destruct (Nat.eqb_spec x (opp x)) as [F|F]; [exfalso; exact (opp_neq x (eq_sym F)) | reflexivity].
+  - rewrite map_length. exact Hi.
+  - rewrite (N i Hi), Hx. cbn [ofull]. rewrite Hh2. apply Nat.eqb_refl.
+  - intros j Hj. rewrite (N j ltac:(lia)). cbn [ofull]. apply Nat.eqb_neq. intros F. rewrite Hh2, <- Hx in F.
+    assert (j = i); [|lia].
+    apply (proj1 (NoDup_nth (map (fun h => h / 2) hs) 0) ND); [rewrite map_length; lia | rewrite map_length; lia|].
+    rewrite !(map_nth (fun h => h / 2) hs 0). exact F.
+Qed.
+
+Theorem label_he_inverts (t : ttopo) (hs : list nat) :
+  tt_heh t = map Some hs -> length hs = 6 -> NoDup (map (fun h => h / 2) hs) ->
   forall l h, In l HEL_all -> tt_heh_l t l = Some h -> tt_label_he t h = Some l.
 Proof.
-  intros E ND l h Hl Hh.
-  assert (D : forall i j, i < 6 -> j < 6 -> nth i [h0 / 2; h1 / 2; h2 / 2; h3 / 2; h4 / 2; h5 / 2] 0 = nth j [h0 / 2; h1 / 2; h2 / 2; h3 / 2; h4 / 2; h5 / 2] 0 -> i = j).
-  { intros i j Hi Hj. apply (proj1 (NoDup_nth _ 0) ND); simpl; lia. }
-  unfold tt_label_he, tt_heh_l, oget in *. rewrite E in *.
-  (* reduce to: the label is (index, side) *)
-  assert (G : forall (i x : nat) (side : bool), i < 6 -> nth i [Some h0; Some h1; Some h2; Some h3; Some h4; Some h5] None = Some x ->
-              h = (if side then x else opp x) ->
-              match find_index (fun o => ofull o =? h / 2) [Some h0; Some h1; Some h2; Some h3; Some h4; Some h5] with
-              | Some i0 => Some (if oeqb (nth i0 [Some h0; Some h1; Some h2; Some h3; Some h4; Some h5] None) h then Z.of_nat i0 else HEL_opposite (Z.of_nat i0))
-              | None => None end = Some (if side then Z.of_nat i else HEL_opposite (Z.of_nat i))).
-  { intros i x side Hi Hx Hs.
-    assert (Hh2 : h / 2 = x / 2) by (subst h; destruct side; [reflexivity | apply opp_div2]).
-    rewrite (find_index_unique _ _ i None).
-    - rewrite Hx. cbn [oeqb]. destruct side; subst h; [rewrite Nat.eqb_refl; reflexivity|].
-      destruct (Nat.eqb_spec x (opp x)) as [F|F]; [exfalso; exact (opp_neq x (eq_sym F)) | reflexivity].
-    - simpl. lia.
-    - rewrite Hx. cbn [ofull]. rewrite Hh2. apply Nat.eqb_refl.
-    - intros j Hj. apply Nat.eqb_neq. intros F. rewrite Hh2 in F.
-      assert (j = i); [|lia]. apply D; [lia | lia |].
-      repeat (destruct i as [|i]; [repeat (destruct j as [|j]; [cbn in *; inversion Hx; subst; exact F|]); simpl in Hj; lia|]); lia. }
-  destruct Hl as [<-|[<-|[<-|[<-|[<-|[<-|[<-|[<-|[<-|[<-|[<-|[<-|[]]]]]]]]]]]]];
-    cbv [HEL_is_forward] in Hh; vm_compute in Hh;
-    match type of Hh with
-    | Some ?x = Some h => inversion Hh; subst h
-    | _ => idtac
-    end.
-  all: try (match goal with |- context [Some ?lab] => idtac end).
-  - exact (G 0 h0 true ltac:(lia) eq_refl eq_refl).
-  - exact (G 1 h1 true ltac:(lia) eq_refl eq_refl).
-  - exact (G 2 h2 true ltac:(lia) eq_refl eq_refl).
-  - exact (G 3 h3 true ltac:(lia) eq_refl eq_refl).
-  - exact (G 4 h4 true ltac:(lia) eq_refl eq_refl).
-  - exact (G 5 h5 true ltac:(lia) eq_refl eq_refl).
-  - exact (G 0 h0 false ltac:(lia) eq_refl eq_refl).
-  - exact (G 1 h1 false ltac:(lia) eq_refl eq_refl).
-  - exact (G 2 h2 false ltac:(lia) eq_refl eq_refl).
-  - exact (G 3 h3 false ltac:(lia) eq_refl eq_refl).
-  - exact (G 4 h4 false ltac:(lia) eq_refl eq_refl).
-  - exact (G 5 h5 false ltac:(lia) eq_refl eq_refl).
+  intros E L ND l h Hl Hh. unfold tt_label_he, tt_heh_l, oget in *. rewrite E in *.
+  assert (N : forall j, j < 6 -> nth j (map Some hs) None = Some (nth j hs 0)).
+  { intros j Hj. rewrite (nth_indep _ None (Some 0)) by (rewrite map_length; lia). apply (map_nth Some hs 0 j). }
+  destruct Hl as [<-|[<-|[<-|[<-|[<-|[<-|[<-|[<-|[<-|[<-|[<-|[<-|[]]]]]]]]]]]]].
+  - change (nth 0 (map Some hs) None = Some h) in Hh. rewrite N in Hh by lia. inversion Hh. exact (label_he_at hs 0 _ _ true ND ltac:(lia) eq_refl eq_refl).
+  - change (nth 1 (map Some hs) None = Some h) in Hh. rewrite N in Hh by lia. inversion Hh. exact (label_he_at hs 1 _ _ true ND ltac:(lia) eq_refl eq_refl).
+  - change (nth 2 (map Some hs) None = Some h) in Hh. rewrite N in Hh by lia. inversion Hh. exact (label_he_at hs 2 _ _ true ND ltac:(lia) eq_refl eq_refl).
+  - change (nth 3 (map Some hs) None = Some h) in Hh. rewrite N in Hh by lia. inversion Hh. exact (label_he_at hs 3 _ _ true ND ltac:(lia) eq_refl eq_refl).
+  - change (nth 4 (map Some hs) None = Some h) in Hh. rewrite N in Hh by lia. inversion Hh. exact (label_he_at hs 4 _ _ true ND ltac:(lia) eq_refl eq_refl).
+  - change (nth 5 (map Some hs) None = Some h) in Hh. rewrite N in Hh by lia. inversion Hh. exact (label_he_at hs 5 _ _ true ND ltac:(lia) eq_refl eq_refl).
+  - change (oopp (nth 0 (map Some hs) None) = Some h) in Hh. rewrite N in Hh by lia. inversion Hh. exact (label_he_at hs 0 _ _ false ND ltac:(lia) eq_refl eq_refl).
+  - change (oopp (nth 1 (map Some hs) None) = Some h) in Hh. rewrite N in Hh by lia. inversion Hh. exact (label_he_at hs 1 _ _ false ND ltac:(lia) eq_refl eq_refl).
+  - change (oopp (nth 2 (map Some hs) None) = Some h) in Hh. rewrite N in Hh by lia. inversion Hh. exact (label_he_at hs 2 _ _ false ND ltac:(lia) eq_refl eq_refl).
+  - change (oopp (nth 3 (map Some hs) None) = Some h) in Hh. rewrite N in Hh by lia. inversion Hh. exact (label_he_at hs 3 _ _ false ND ltac:(lia) eq_refl eq_refl).
+  - change (oopp (nth 4 (map Some hs) None) = Some h) in Hh. rewrite N in Hh by lia. inversion Hh. exact (label_he_at hs 4 _ _ false ND ltac:(lia) eq_refl eq_refl).
+  - change (oopp (nth 5 (map Some hs) None) = Some h) in Hh. rewrite N in Hh by lia. inversion Hh. exact (label_he_at hs 5 _ _ false ND ltac:(lia) eq_refl eq_refl).
+Qed.
+
+(* ------------------------------------------------------------------ the constructor on concrete tetrahedra *)
+
+(* all 12 (halfface, start vertex) choices of every live cell: constructed and consistent *)
+Definition all_tt_consistent (s : mesh) : bool :=
+  forallb (fun c =>
+    forallb (fun hf =>
+      forallb (fun a => match tt_make s c hf (Some a) with
+                        | Some t => tt_consistent s c t && oeqb (tt_vh_l t VL_A) a && oeqb (tt_hfh_l t HFL_ABC) hf
+                        | None => false end) (hf_vertices s hf)
+      && match tt_make s c hf None with Some t => tt_consistent s c t | None => false end) (cell_at s c)) (live_cells s).
+
+(* one tetrahedron; two tetrahedra glued along a face that the second one finds stored in the other rotation and on
+   the other side; a closed fan of four tetrahedra around an edge *)
+Definition tt_mesh_1 : mesh := tet_run [TK (AddVertices 4); TAddCellV [0; 1; 2; 3] true].
+Definition tt_mesh_2 : mesh :=
+  tet_run [TK (AddVertices 5); TK (AddFaceV [3; 2; 1]); TAddCellV [0; 1; 2; 3] true; TAddCell4 1 3 2 4 false].
+Definition tt_mesh_fan : mesh :=
+  tet_run [TK (AddVertices 6); TAddCellV [0; 1; 2; 3] true; TAddCell4 0 1 3 4 true; TAddCellV [0; 1; 4; 5] false;
+           TAddCell4 0 1 5 2 true].
+
+Example tt_constructor_consistent_on_examples :
+  all_tt_consistent tt_mesh_1 = true /\ all_tt_consistent tt_mesh_2 = true /\ all_tt_consistent tt_mesh_fan = true /\
+  length (live_cells tt_mesh_2) = 2 /\ length (live_cells tt_mesh_fan) = 4.
+Proof. vm_compute. repeat split. Qed.
+
+(* non-vacuity of the inversion theorems: the constructed TetTopology has distinct entries *)
+Example label_inversion_applies :
+  match tt_make tt_mesh_1 0 0 (Some 0) with
+  | Some t => tt_vh t = [Some 0; Some 1; Some 2; Some 3] /\
+              exists hs, tt_heh t = map Some hs /\ length hs = 6 /\ NoDup (map (fun h => h / 2) hs)
+  | None => False
+  end.
+Proof.
+  vm_compute. split; [reflexivity|]. exists [0; 2; 4; 6; 9; 11]. split; [reflexivity|]. split; [reflexivity|].
+  repeat constructor; simpl; intuition discriminate.
 Qed.
